@@ -14,6 +14,9 @@ def main():
     import interp_check
     if a.prop in interp_check.CONFIGS:
         return interp_check.main(a.prop, a.tier, a.seed, a.replay)
+    if a.prop == 'C14':
+        import clock_check
+        return clock_check.main(a.prop, a.tier, a.seed, a.replay)
     print('unknown property', a.prop)
     return 2
 
